@@ -26,6 +26,7 @@ type c06A struct {
 	fData, fProto                  *types.Var // KeyInfo.Data / Protocol
 	fResumed, fCrypto              *types.Var // SecurityNegotiation.SessionResumed / NegotiatedCrypto
 	fUser, fAuthn, fAuthM, fValidC *types.Var
+	fKeyInfoF, fPolicyF, fSecretF  *types.Var // optional: the fields behind the KeyInfo()/Policy()/GetSharedSecret() getters (an inlined getter reads them)
 	entryT                         types.Type // *SessionEntry
 }
 
@@ -67,6 +68,9 @@ func c06Resolve(c *Ctx, rule string) *c06A {
 	fld(&a.fAuthn, "SecurityNegotiation", "Authentication")
 	fld(&a.fAuthM, "SecurityNegotiation", "NegotiatedAuth")
 	fld(&a.fValidC, "SecurityNegotiation", "ValidCommands")
+	a.fKeyInfoF = c.Field("security", "SessionEntry", "keyInfo")
+	a.fPolicyF = c.Field("security", "SessionEntry", "policy")
+	a.fSecretF = c.Field("security", "SecurityNegotiation", "sharedSecret")
 	if o := c.needObj(rule, "security", "SessionEntry"); o != nil {
 		a.entryT = types.NewPointer(o.Type())
 	} else {
@@ -79,7 +83,19 @@ func c06Resolve(c *Ctx, rule string) *c06A {
 }
 
 // ---------------------------------------------------------------------------
-// key evidence: edges on which the entry is known to carry a key that can be installed
+// views of the resumption code
+
+// stopFns: the anchors; a view never looks inside them (a rule that asks for "a call of X" sees the call).
+func (a *c06A) stopFns() []*ssa.Function {
+	return []*ssa.Function{a.H, a.R, a.S, a.keyInfo, a.policy, a.lookupNE, a.lookup, a.lookupByCmd, a.isAES, a.setSecret, a.getSecret, a.invalidate}
+}
+
+func (c *Ctx) c06View(a *c06A, root *ssa.Function) *c06View {
+	return c.c06NewView(root, a.stopFns()...)
+}
+
+// ---------------------------------------------------------------------------
+// key evidence: conditions under which the entry is known to carry a key that can be installed
 
 const (
 	c06KNonNil   = "KeyInfo()!=nil"
@@ -89,250 +105,340 @@ const (
 
 var c06Kinds = []string{c06KNonNil, c06KNonEmpty, c06KCipher}
 
-// isKeyInfoVal: v is (an alias of) the result of a KeyInfo() call in fn.
-func (a *c06A) isKeyInfoVal(fn *ssa.Function, v ssa.Value) bool {
-	return c06AllOrigins(fn, v, func(o ssa.Value) bool { return c06CallOf(o, a.keyInfo.Object()) != nil })
+// isKeyInfoVal: v is (an alias of) the result of a KeyInfo() call, or a read of the field that getter returns.
+func (a *c06A) isKeyInfoVal(vw *c06View, v c06FV) bool {
+	return vw.AllOrigins(v, func(o c06FV) bool {
+		if _, ok := c06SiteOf(o, a.keyInfo.Object()); ok {
+			return true
+		}
+		if a.fKeyInfoF != nil {
+			if _, ok := c06XFieldLoad(o, a.fKeyInfoF); ok {
+				return true
+			}
+		}
+		return false
+	})
+}
+
+// isPolicyVal: v is the result of a Policy() call (or a read of the field it returns); returns the entries it is taken from.
+func (a *c06A) isPolicyVal(vw *c06View, v c06FV, entry func(c06FV) bool) bool {
+	return vw.AllOrigins(v, func(o c06FV) bool {
+		if s, ok := c06SiteOf(o, a.policy.Object()); ok {
+			return entry(s.Arg(0))
+		}
+		if a.fPolicyF != nil {
+			if base, ok := c06XFieldLoad(o, a.fPolicyF); ok {
+				return entry(base)
+			}
+		}
+		return false
+	})
 }
 
 // isKeyField: v is a load of KeyInfo.<f> from a KeyInfo() result.
-func (a *c06A) isKeyField(fn *ssa.Function, v ssa.Value, f *types.Var) bool {
-	return c06AllOrigins(fn, v, func(o ssa.Value) bool {
-		base, ok := c06FieldLoadOf(o, f)
-		return ok && a.isKeyInfoVal(fn, base)
+func (a *c06A) isKeyField(vw *c06View, v c06FV, f *types.Var) bool {
+	return vw.AllOrigins(v, func(o c06FV) bool {
+		base, ok := c06XFieldLoad(o, f)
+		return ok && a.isKeyInfoVal(vw, base)
+	})
+}
+
+// isSecretVal: v is the negotiation's shared secret (GetSharedSecret() or the field it returns); recv receives the negotiation.
+func (a *c06A) isSecretVal(vw *c06View, v c06FV, recv *c06FV) bool {
+	return vw.AllOrigins(v, func(o c06FV) bool {
+		if s, ok := c06SiteOf(o, a.getSecret.Object()); ok {
+			if recv != nil {
+				*recv = s.Arg(0)
+			}
+			return true
+		}
+		if a.fSecretF != nil {
+			if base, ok := c06XFieldLoad(o, a.fSecretF); ok {
+				if recv != nil {
+					*recv = base
+				}
+				return true
+			}
+		}
+		return false
 	})
 }
 
 // isCipherTest: v is isAESGCM(x) with x taken from KeyInfo().Protocol.
-func (a *c06A) isCipherTest(fn *ssa.Function, v ssa.Value) bool {
-	cl, ok := v.(*ssa.Call)
+func (a *c06A) isCipherTest(vw *c06View, v c06FV) bool {
+	cl, ok := v.V.(*ssa.Call)
 	if !ok || calleeFn(cl) != a.isAES || len(cl.Call.Args) != 1 {
 		return false
 	}
-	return a.isKeyField(fn, cl.Call.Args[0], a.fProto)
+	return a.isKeyField(vw, c06FV{cl.Call.Args[0], v.F}, a.fProto)
 }
 
-// c06KeyFacts returns, per evidence kind, the edges of fn on which that fact is established:
-// direct tests, or the true edge of a call to a boolean module helper that guarantees it.
-func (c *Ctx) c06KeyFacts(a *c06A, fn *ssa.Function, depth int) map[string][]Edge {
-	out := map[string][]Edge{}
-	for _, cs := range callsIn(fn, a.keyInfo.Object()) {
-		if v := cs.Value(); v != nil {
-			_, nn := nilEdges(fn, v)
-			out[c06KNonNil] = append(out[c06KNonNil], nn...)
-		}
+// c06NilAtom: at compares v with nil; eqNil tells whether the atom being true means v == nil.
+func c06NilAtom(at Atom) (v ssa.Value, nilOnTrue, ok bool) {
+	if at.Op != token.EQL && at.Op != token.NEQ {
+		return nil, false, false
 	}
-	for _, b := range fn.Blocks {
-		if root, _, nz, ok := zeroEdges(b); ok {
-			if cl, isCall := root.(*ssa.Call); isCall {
-				if bi, isB := cl.Call.Value.(*ssa.Builtin); isB && bi.Name() == "len" && a.isKeyField(fn, cl.Call.Args[0], a.fData) {
-					out[c06KNonEmpty] = append(out[c06KNonEmpty], nz)
-				}
-			}
-		}
-		ifi := blockIf(b)
-		if ifi == nil {
-			continue
-		}
-		at := condAtom(ifi.Cond)
-		if at.Op != token.ILLEGAL {
-			continue
-		}
-		t := Edge{b, 0} // the edge on which the tested boolean is true
-		if at.Neg {
-			t = Edge{b, 1}
-		}
-		if a.isCipherTest(fn, at.X) {
-			out[c06KCipher] = append(out[c06KCipher], t)
-			continue
-		}
-		if cl, ok := at.X.(*ssa.Call); ok && depth > 0 {
-			g := calleeFn(cl)
-			if g == nil || g == fn || g.Blocks == nil || fnPkg(g) == nil || !inModule(fnPkg(g).Path()) {
-				continue
-			}
-			takesEntry := false
-			for _, arg := range cl.Call.Args {
-				if types.Identical(arg.Type(), a.entryT) {
-					takesEntry = true
-				}
-			}
-			if !takesEntry {
-				continue
-			}
-			for k, holds := range c.c06HelperGuarantees(a, g, depth-1) {
-				if holds {
-					out[k] = append(out[k], t)
-				}
-			}
-		}
+	switch {
+	case isNilConst(at.Y):
+		v = at.X
+	case isNilConst(at.X):
+		v = at.Y
+	default:
+		return nil, false, false
 	}
-	return out
+	return v, at.Op == token.EQL, true
 }
 
-// c06HelperGuarantees: for a boolean helper g(entry), which evidence kinds hold whenever g returns true.
-func (c *Ctx) c06HelperGuarantees(a *c06A, g *ssa.Function, depth int) map[string]bool {
-	res := map[string]bool{}
-	if g.Signature.Results().Len() != 1 {
-		return res
+// c06ZeroAtom: at is "R ==/!=/>/<= 0" (R an unsigned or length value); zeroOnTrue tells whether the atom
+// being true means R == 0 (zeroEdges of ssahelp.go on an atom instead of a block).
+func c06ZeroAtom(at Atom) (root ssa.Value, zeroOnTrue, ok bool) {
+	if at.Op == token.ILLEGAL || at.Y == nil {
+		return nil, false, false
 	}
-	if bt, ok := g.Signature.Results().At(0).Type().Underlying().(*types.Basic); !ok || bt.Kind() != types.Bool {
-		return res
+	k, isC := constInt(at.Y)
+	if !isC || k != 0 {
+		return nil, false, false
 	}
-	// KeyInfo() receivers in g must be g's *SessionEntry parameter
-	for _, cs := range callsIn(g, a.keyInfo.Object()) {
-		recv := callArgs(cs)[0]
-		if !c06AllOrigins(g, recv, func(o ssa.Value) bool { _, isP := o.(*ssa.Parameter); return isP }) {
-			return res
+	x := at.X
+	unsignedOrLen := false
+	if bt, isB := x.Type().Underlying().(*types.Basic); isB && bt.Info()&types.IsUnsigned != 0 {
+		unsignedOrLen = true
+	}
+	if call, isCall := x.(*ssa.Call); isCall {
+		if bi, isB := call.Call.Value.(*ssa.Builtin); isB && bi.Name() == "len" {
+			unsignedOrLen = true
 		}
 	}
-	facts := c.c06KeyFacts(a, g, depth)
-	pr := c06NewPruner(g)
-	type tr struct {
-		ret  *ssa.Return
-		pred *ssa.BasicBlock
-		val  ssa.Value
+	switch at.Op {
+	case token.EQL:
+		zeroOnTrue = true
+	case token.NEQ:
+		zeroOnTrue = false
+	case token.GTR:
+		if !unsignedOrLen {
+			return nil, false, false
+		}
+		zeroOnTrue = false
+	case token.LEQ:
+		if !unsignedOrLen {
+			return nil, false, false
+		}
+		zeroOnTrue = true
+	default:
+		return nil, false, false
 	}
-	var trues []tr
-	for _, b := range g.Blocks {
-		if len(b.Instrs) == 0 {
-			continue
-		}
-		ret, ok := b.Instrs[len(b.Instrs)-1].(*ssa.Return)
-		if !ok {
-			continue
-		}
-		v := ret.Results[0]
-		if phi, ok := v.(*ssa.Phi); ok && phi.Block() == b {
-			for i, e := range phi.Edges {
-				trues = append(trues, tr{ret, b.Preds[i], e})
-			}
-		} else {
-			trues = append(trues, tr{ret, nil, v})
-		}
-	}
-	for _, k := range c06Kinds {
-		holds, n := true, 0
-		for _, t := range trues {
-			if cv, isC := constBool(t.val); isC && !cv {
-				continue
-			}
-			n++
-			if k == c06KCipher && a.isCipherTest(g, t.val) {
-				continue // returning isAESGCM(...) itself: true only when the cipher is installable
-			}
-			if c06FindPath(pr, entryPoint(g), Target{Instr: t.ret, Pred: t.pred}, newCuts().AddEdges(facts[k]...)) != nil {
-				holds = false
-			}
-		}
-		res[k] = holds && n > 0
-	}
-	return res
+	return zeroRoot(x), zeroOnTrue, true
 }
 
-// entryFromLookup: v (a *SessionEntry used in handleSessionResumption) comes only from result #0 of LookupNonExpired / Lookup.
-func (a *c06A) entryFromLookup(fn *ssa.Function, v ssa.Value) bool {
-	return c06AllOrigins(fn, v, func(o ssa.Value) bool {
-		ex, ok := o.(*ssa.Extract)
-		return ok && ex.Index == 0 && c06CallOf(o, a.lookupNE.Object(), a.lookup.Object()) != nil
+// c06LenArg: root is len(x); returns x.
+func c06LenArg(root ssa.Value) (ssa.Value, bool) {
+	if cl, ok := root.(*ssa.Call); ok {
+		if bi, ok := cl.Call.Value.(*ssa.Builtin); ok && bi.Name() == "len" && len(cl.Call.Args) == 1 {
+			return cl.Call.Args[0], true
+		}
+	}
+	return nil, false
+}
+
+// keyFacts: one fact per evidence kind.
+func (a *c06A) keyFacts(vw *c06View) map[string]*c06Fact {
+	return map[string]*c06Fact{
+		c06KNonNil: {Name: c06KNonNil, Cond: func(fr *c06Frame, at Atom) (bool, bool) {
+			v, nilOnTrue, ok := c06NilAtom(at)
+			if !ok || !a.isKeyInfoVal(vw, c06FV{v, fr}) {
+				return false, false
+			}
+			return !nilOnTrue, nilOnTrue
+		}},
+		c06KNonEmpty: {Name: c06KNonEmpty, Cond: func(fr *c06Frame, at Atom) (bool, bool) {
+			root, zeroOnTrue, ok := c06ZeroAtom(at)
+			if !ok {
+				return false, false
+			}
+			x, isLen := c06LenArg(root)
+			if !isLen || !a.isKeyField(vw, c06FV{x, fr}, a.fData) {
+				return false, false
+			}
+			return !zeroOnTrue, zeroOnTrue
+		}},
+		c06KCipher: {Name: c06KCipher, Cond: func(fr *c06Frame, at Atom) (bool, bool) {
+			if at.Op != token.ILLEGAL || at.X == nil {
+				return false, false
+			}
+			return a.isCipherTest(vw, c06FV{at.X, fr}), false
+		}},
+	}
+}
+
+// nilKeyFact: "the entry carries no key" (KeyInfo() == nil); what follows such an edge is outside the
+// obligations that are stated "given that the entry carries a key".
+func (a *c06A) nilKeyFact(vw *c06View) *c06Fact {
+	return &c06Fact{Name: "KeyInfo()==nil", Cond: func(fr *c06Frame, at Atom) (bool, bool) {
+		v, nilOnTrue, ok := c06NilAtom(at)
+		if !ok || !a.isKeyInfoVal(vw, c06FV{v, fr}) {
+			return false, false
+		}
+		return nilOnTrue, !nilOnTrue
+	}}
+}
+
+// entryFromLookup: v (a *SessionEntry used on the server's resumption path) comes only from result #0 of LookupNonExpired / Lookup.
+func (a *c06A) entryFromLookup(vw *c06View, v c06FV) bool {
+	return vw.AllOrigins(v, func(o c06FV) bool {
+		ex, ok := o.V.(*ssa.Extract)
+		return ok && ex.Index == 0 && c06CallOf(o.V, a.lookupNE.Object(), a.lookup.Object()) != nil
 	})
 }
 
-// nilKeyEdges: edges on which a KeyInfo() result is nil.
-func (a *c06A) nilKeyEdges(fn *ssa.Function) []Edge {
-	var out []Edge
-	for _, cs := range callsIn(fn, a.keyInfo.Object()) {
-		if v := cs.Value(); v != nil {
-			n, _ := nilEdges(fn, v)
-			out = append(out, n...)
+// foundFact: the found=true outcome of an expiry-checked lookup.
+func (a *c06A) foundFact(vw *c06View) *c06Fact {
+	return &c06Fact{Name: "found", Cond: func(fr *c06Frame, at Atom) (bool, bool) {
+		if at.Op != token.ILLEGAL || at.X == nil {
+			return false, false
 		}
-	}
-	return out
+		ok := vw.AllOrigins(c06FV{at.X, fr}, func(o c06FV) bool {
+			ex, isEx := o.V.(*ssa.Extract)
+			return isEx && ex.Index == 1 && c06CallOf(o.V, a.lookupNE.Object(), a.lookup.Object()) != nil
+		})
+		return ok, false
+	}}
 }
 
-// c06Install decides, for fn in {handleSessionResumption, resumeSession}: given that the entry carries a key
-// (nil-key edges removed), every success return passes the nil-error edge of setupStreamEncryption /
-// SetSymmetricKey; the shared secret is the entry's key; SessionResumed and NegotiatedCrypto are set from the
-// entry before the installer runs. Returns the number of installer calls seen.
-func (c *Ctx) c06Install(rule string, a *c06A, fn *ssa.Function) int {
-	pr := c06NewPruner(fn)
-	nilE := a.nilKeyEdges(fn)
-	base := func() *Cuts { return newCuts().AddEdges(nilE...) }
-	// 1. the secret handed to the negotiation is the entry's key
-	var setCalls []ssa.CallInstruction
-	for _, cs := range callsIn(fn, a.setSecret.Object()) {
-		setCalls = append(setCalls, cs)
-		args := callArgs(cs)
-		c.Check(len(args) == 2 && a.isKeyField(fn, args[1], a.fData), rule, fnName(fn)+"#setSharedSecret<-KeyInfo().Data",
-			"the shared secret installed on resumption is the cached entry's key", "the shared secret installed on resumption is not taken from the cached entry's KeyInfo().Data", cs.Pos())
+// c06ErrOnlyReturned: the error result of call is handed straight to the caller ("return f(...)").
+func c06ErrOnlyReturned(call ssa.CallInstruction) bool {
+	v := call.Value()
+	if v == nil {
+		return false
 	}
-	if len(setCalls) == 0 {
-		c.Violate(rule, fnName(fn)+"#setSharedSecret<-KeyInfo().Data", "no setSharedSecret call: the cached key is never handed to the negotiation", fn.Pos())
-	}
-	// 2. "secret is empty" edges are infeasible once setSharedSecret(KeyInfo().Data) has run on every path to the test
-	cuts := base()
-	for _, b := range fn.Blocks {
-		root, z, _, ok := zeroEdges(b)
-		if !ok {
-			continue
-		}
-		cl, isCall := root.(*ssa.Call)
-		if !isCall {
-			continue
-		}
-		bi, isB := cl.Call.Value.(*ssa.Builtin)
-		if !isB || bi.Name() != "len" {
-			continue
-		}
-		gs := c06CallOf(cl.Call.Args[0], a.getSecret.Object())
-		if gs == nil {
-			continue
-		}
-		pre := base()
-		for _, sc := range setCalls {
-			if c06SameValue(fn, callArgs(sc)[0], callArgs(gs)[0]) && a.isKeyField(fn, callArgs(sc)[1], a.fData) {
-				pre.AddInstrs(sc)
+	n := 0
+	for _, e := range errResults(v) {
+		for _, r := range *e.Referrers() {
+			switch r.(type) {
+			case *ssa.Return:
+				n++
+			case *ssa.DebugRef:
+			default:
+				return false
 			}
 		}
-		if c06FindPath(pr, entryPoint(fn), Target{Instr: blockIf(b)}, pre) == nil {
-			cuts.AddEdges(z)
-			c.Note("%s: %s: the empty-secret edge at %s is treated as infeasible (setSharedSecret(KeyInfo().Data) precedes it on every keyed path; non-emptiness is C06-R1's key evidence)", rule, fnName(fn), c.Pos(c06BlockPos(b)))
+	}
+	return n > 0
+}
+
+// c06Install decides, for the view of handleSessionResumption / resumeSession: given that the entry carries a
+// key (what follows a KeyInfo()==nil edge is disregarded), every success return passes the nil-error outcome of
+// setupStreamEncryption / SetSymmetricKey; the shared secret is the entry's key; SessionResumed and
+// NegotiatedCrypto are set from the entry before the installer runs. Returns the number of installer calls seen.
+func (c *Ctx) c06Install(rule string, a *c06A, vw *c06View) int {
+	fn := vw.Root.Fn
+	nilKey := a.nilKeyFact(vw)
+	// 1. the secret handed to the negotiation is the entry's key
+	type setEv struct {
+		in   ssa.Instruction
+		fr   *c06Frame
+		recv c06FV
+		good bool
+	}
+	var sets []setEv
+	for _, cs := range vw.Calls(a.setSecret.Object()) {
+		good := cs.NArgs() == 2 && a.isKeyField(vw, cs.Arg(1), a.fData)
+		sets = append(sets, setEv{cs.Call, cs.F, cs.Arg(0), good})
+		c.Check(good, rule, fnName(fn)+"#setSharedSecret<-KeyInfo().Data",
+			"the shared secret installed on resumption is the cached entry's key", "the shared secret installed on resumption is not taken from the cached entry's KeyInfo().Data", cs.Pos())
+	}
+	if a.fSecretF != nil {
+		for _, st := range vw.StoresToField(a.fSecretF) {
+			good := a.isKeyField(vw, st.Val(), a.fData)
+			sets = append(sets, setEv{st.St, st.F, st.Base(), good})
+			c.Check(good, rule, fnName(fn)+"#setSharedSecret<-KeyInfo().Data",
+				"the shared secret installed on resumption is the cached entry's key", "the shared secret installed on resumption is not taken from the cached entry's KeyInfo().Data", st.St.Pos())
 		}
+	}
+	if len(sets) == 0 {
+		c.Violate(rule, fnName(fn)+"#setSharedSecret<-KeyInfo().Data", "no setSharedSecret call: the cached key is never handed to the negotiation", fn.Pos())
+	}
+	// secretSet(n): the negotiation n has been given the entry's key
+	secretSet := func(n c06FV) *c06Fact {
+		return c06AnyOf("setSharedSecret(KeyInfo().Data)", nilKey, &c06Fact{Instr: func(fr *c06Frame, in ssa.Instruction) bool {
+			for _, s := range sets {
+				if s.in == in && s.fr == fr && s.good && vw.Same(s.recv, n) {
+					return true
+				}
+			}
+			return false
+		}})
+	}
+	// 2. "secret is empty" edges are infeasible once setSharedSecret(KeyInfo().Data) has run on every path to the test
+	emptySecretEdges := func(fr *c06Frame) []Edge {
+		var out []Edge
+		for _, b := range fr.Fn.Blocks {
+			root, z, _, ok := zeroEdges(b)
+			if !ok {
+				continue
+			}
+			x, isLen := c06LenArg(root)
+			if !isLen {
+				continue
+			}
+			var n c06FV
+			if !a.isSecretVal(vw, c06FV{x, fr}, &n) || n.V == nil {
+				continue
+			}
+			if ok, _ := vw.MustPassTo(fr, blockIf(b), secretSet(n)); ok {
+				out = append(out, z)
+				c.Note("%s: %s: the empty-secret edge at %s is treated as infeasible (setSharedSecret(KeyInfo().Data) precedes it on every keyed path; non-emptiness is C06-R1's key evidence)", rule, fnName(fr.Fn), c.Pos(c06BlockPos(b)))
+			}
+		}
+		return out
 	}
 	// 3. installer calls
 	n := 0
-	var installers []ssa.CallInstruction
-	for _, cs := range callsIn(fn, a.S.Object(), a.setKey.Object()) {
+	var installers []c06Site
+	for _, cs := range vw.Calls(a.S.Object(), a.setKey.Object()) {
 		n++
 		installers = append(installers, cs)
-		succ, _, checked := callErrEdges(fn, cs.Value())
-		if !checked {
-			c.Violate(rule, fnName(fn)+"#installer-error-tested", "the error of "+calleeObj(cs).Name()+" is not tested: a failed key install would still resume", cs.Pos())
-			continue
+		if _, _, checked := callErrEdges(cs.F.Fn, cs.Call.Value()); !checked && !c06ErrOnlyReturned(cs.Call) {
+			c.Violate(rule, fnName(fn)+"#installer-error-tested", "the error of "+calleeObj(cs.Call).Name()+" is not tested: a failed key install would still resume", cs.Pos())
 		}
-		cuts.AddEdges(succ...)
 	}
-	c.c06MustPassReturns(rule, pr, fn, c.c06SuccessTargets(fn), cuts, ":key-installed", "a nil-error setupStreamEncryption/SetSymmetricKey (given the entry carries a key)")
+	installed := c06AnyOf("key installed", nilKey, &c06Fact{
+		CallOK: func(fr *c06Frame, cl ssa.CallInstruction) bool {
+			o := calleeObj(cl)
+			return o != nil && (types.Object(o) == a.S.Object() || types.Object(o) == a.setKey.Object())
+		},
+		Edges: emptySecretEdges,
+	})
+	vw.MustPassReturns(rule, c.c06SuccessTargets(fn), installed, 1, ":key-installed", "a nil-error setupStreamEncryption/SetSymmetricKey (given the entry carries a key)")
 	// 4. what the installer keys on is set from the entry before it runs
+	resumedSet := c06AnyOf("SessionResumed=true", nilKey, &c06Fact{Instr: func(fr *c06Frame, in ssa.Instruction) bool {
+		st, ok := in.(*ssa.Store)
+		if !ok {
+			return false
+		}
+		fa, ok := st.Addr.(*ssa.FieldAddr)
+		if !ok || fieldOfAddr(fa) != a.fResumed {
+			return false
+		}
+		v, isC := vw.ConstBool(c06FV{st.Val, fr})
+		return isC && v
+	}})
+	cryptoSet := c06AnyOf("NegotiatedCrypto<-KeyInfo().Protocol", nilKey, &c06Fact{Instr: func(fr *c06Frame, in ssa.Instruction) bool {
+		st, ok := in.(*ssa.Store)
+		if !ok {
+			return false
+		}
+		fa, ok := st.Addr.(*ssa.FieldAddr)
+		return ok && fieldOfAddr(fa) == a.fCrypto && a.isKeyField(vw, c06FV{st.Val, fr}, a.fProto)
+	}})
 	for _, cs := range installers {
-		if calleeFn(cs) != a.S {
+		if calleeFn(cs.Call) != a.S {
 			continue
 		}
-		var resumedStores, cryptoStores []ssa.Instruction
-		for _, st := range c06StoresToField(fn, a.fResumed) {
-			if v, ok := constBool(st.Val); ok && v {
-				resumedStores = append(resumedStores, st)
-			}
-		}
-		for _, st := range c06StoresToField(fn, a.fCrypto) {
-			if a.isKeyField(fn, st.Val, a.fProto) {
-				cryptoStores = append(cryptoStores, st)
-			}
-		}
-		p1 := c06FindPath(pr, entryPoint(fn), Target{Instr: cs}, base().AddInstrs(resumedStores...))
-		c.Check(p1 == nil, rule, fnName(fn)+"#SessionResumed=true-before-setup", "SessionResumed is set before setupStreamEncryption on every keyed path",
+		ok1, p1 := vw.MustPassTo(cs.F, cs.Call, resumedSet)
+		c.Check(ok1, rule, fnName(fn)+"#SessionResumed=true-before-setup", "SessionResumed is set before setupStreamEncryption on every keyed path",
 			"setupStreamEncryption can be reached without SessionResumed=true: its resumed branch (the only one that installs a cached key) is skipped", cs.Pos(), c.describePath(p1)...)
-		p2 := c06FindPath(pr, entryPoint(fn), Target{Instr: cs}, base().AddInstrs(cryptoStores...))
-		c.Check(p2 == nil, rule, fnName(fn)+"#NegotiatedCrypto<-KeyInfo().Protocol-before-setup", "NegotiatedCrypto is restored from the entry before setupStreamEncryption",
+		ok2, p2 := vw.MustPassTo(cs.F, cs.Call, cryptoSet)
+		c.Check(ok2, rule, fnName(fn)+"#NegotiatedCrypto<-KeyInfo().Protocol-before-setup", "NegotiatedCrypto is restored from the entry before setupStreamEncryption",
 			"setupStreamEncryption can be reached without NegotiatedCrypto restored from KeyInfo().Protocol", cs.Pos(), c.describePath(p2)...)
 	}
 	return n
@@ -341,14 +447,14 @@ func (c *Ctx) c06Install(rule string, a *c06A, fn *ssa.Function) int {
 // C06-R1: key or refuse (server side), and the key is installed.
 func c06r1(c *Ctx) {
 	const rule = "C06-R1"
-	c.Doc(rule, "handleSessionResumption: every success return is reached only past evidence that the entry carries an installable key (KeyInfo()!=nil, len(Data)>0, isAESGCM(Protocol); directly or through a boolean helper; flag variables followed), and past a nil-error setupStreamEncryption fed with that key; setupStreamEncryption's SessionResumed branch returns success only after a nil-error SetSymmetricKey(GetSharedSecret())")
+	c.Doc(rule, "handleSessionResumption: every success return is reached only past evidence that the entry carries an installable key (KeyInfo()!=nil, len(Data)>0, isAESGCM(Protocol); directly, through boolean helpers or local booleans; flag variables followed), and past a nil-error setupStreamEncryption fed with that key (the restoring / installing steps may live in helpers); setupStreamEncryption's SessionResumed branch returns success only after a nil-error SetSymmetricKey(GetSharedSecret())")
 	a := c06Resolve(c, rule)
 	if a == nil {
 		return
 	}
 	H := a.H
-	pr := c06NewPruner(H)
-	facts := c.c06KeyFacts(a, H, 2)
+	vw := c.c06View(a, H)
+	facts := a.keyFacts(vw)
 	succ := c.c06SuccessTargets(H)
 	grouped := map[int][]RetPoint{}
 	var ords []int
@@ -364,11 +470,11 @@ func c06r1(c *Ctx) {
 		var missing []string
 		var wit []*ssa.BasicBlock
 		for _, k := range c06Kinds {
-			if len(facts[k]) == 0 {
+			if vw.CutCount(vw.Root, facts[k]) == 0 {
 				missing = append(missing, k+" (never tested)")
 				continue
 			}
-			if p := c06PathToReturns(pr, H, grouped[o], newCuts().AddEdges(facts[k]...)); p != nil {
+			if p := vw.PathToReturns(vw.Root, grouped[o], facts[k], 0); p != nil {
 				missing = append(missing, k)
 				if wit == nil {
 					wit = p
@@ -405,68 +511,79 @@ func c06r1(c *Ctx) {
 				poss[acc.Fn] = acc.Instr.Pos()
 			}
 		}
-		c.whoMay(rule, "write SessionEntry.keyInfo", wr, poss, fnSet(nse))
+		c.c06WhoMay(rule, "write SessionEntry.keyInfo", wr, poss, fnSet(nse))
 		c.MinCount(rule, "writers of SessionEntry.keyInfo", len(wr), 1)
 	}
-	n := c.c06Install(rule, a, H)
+	n := c.c06Install(rule, a, vw)
 	c.MinCount(rule, "key installer calls in handleSessionResumption", n, 1)
 
-	// setupStreamEncryption: the resumed branch installs the key or fails
-	cands := []*ssa.Function{a.S}
-	allInstrs(a.S, func(_ *ssa.BasicBlock, _ int, in ssa.Instruction) {
-		if cl, ok := in.(ssa.CallInstruction); ok {
-			if g := calleeFn(cl); g != nil && g.Blocks != nil && fnPkg(g) == fnPkg(a.S) && g != a.S {
-				cands = append(cands, g)
-			}
+	// setupStreamEncryption: the resumed branch installs the key or fails (the branch may live in a helper of it)
+	vs := c.c06View(a, a.S)
+	anyKey := &c06Fact{Name: "SetSymmetricKey", CallOK: func(fr *c06Frame, cl ssa.CallInstruction) bool {
+		o := calleeObj(cl)
+		return o != nil && types.Object(o) == a.setKey.Object()
+	}}
+	secretKey := &c06Fact{Name: "SetSymmetricKey(GetSharedSecret())", CallOK: func(fr *c06Frame, cl ssa.CallInstruction) bool {
+		o := calleeObj(cl)
+		if o == nil || types.Object(o) != a.setKey.Object() {
+			return false
 		}
-	})
+		args := callArgs(cl)
+		return len(args) == 2 && a.isSecretVal(vs, c06FV{args[1], fr}, nil)
+	}}
+	// the edges on which negotiation.SessionResumed is known true: the branch itself, the true edge of a predicate
+	// that tests it, or a branch on a local boolean that carries it
+	resumedF := &c06Fact{Name: "SessionResumed", Cond: func(fr *c06Frame, at Atom) (bool, bool) {
+		return at.Op == token.ILLEGAL && at.X != nil && readsField(at.X, a.fResumed), false
+	}}
 	nb := 0
-	for _, g := range cands {
-		keyCuts := newCuts()
-		var keyCalls []ssa.CallInstruction
-		for _, cs := range callsIn(g, a.setKey.Object()) {
-			keyCalls = append(keyCalls, cs)
-			s, _, _ := callErrEdges(g, cs.Value())
-			keyCuts.AddEdges(s...)
+	for _, fr := range vs.Frames() {
+		g := fr.Fn
+		if c06ErrIndex(g.Signature) < 0 {
+			continue // a predicate: its callers' branches are looked at
 		}
-		for _, b := range g.Blocks {
-			ifi := blockIf(b)
-			if ifi == nil {
-				continue
+		cuts := vs.Cuts(fr, resumedF)
+		var edges []Edge
+		for e := range cuts.Edges {
+			edges = append(edges, e)
+		}
+		for v := range cuts.Via {
+			if !cuts.Edges[Edge{v.From, v.Succ}] {
+				edges = append(edges, Edge{v.From, v.Succ})
 			}
-			at := condAtom(ifi.Cond)
-			if at.Op != token.ILLEGAL || !readsField(at.X, a.fResumed) {
-				continue
+		}
+		sort.Slice(edges, func(i, j int) bool {
+			if edges[i].From.Index != edges[j].From.Index {
+				return edges[i].From.Index < edges[j].From.Index
 			}
+			return edges[i].Succ < edges[j].Succ
+		})
+		for _, e := range edges {
+			b := e.From
 			nb++
 			if g != a.S {
 				c.Note("%s: the SessionResumed branch lives in %s (called from setupStreamEncryption)", rule, fnName(g))
 			}
-			e := Edge{b, 0}
-			if at.Neg {
-				e = Edge{b, 1}
+			if len(e.To().Instrs) == 0 {
+				continue
 			}
-			var wit []*ssa.BasicBlock
-			for _, t := range c.successTargets(g) {
-				if len(e.To().Instrs) == 0 {
-					continue
+			search := func(f *c06Fact) []*ssa.BasicBlock {
+				for _, t := range c.successTargets(g) {
+					if vs.retEstablishes(fr, f, t, true) {
+						continue
+					}
+					if p := c06FindPathVia(vs.pruner(fr), Point{e.To(), 0}, e.From, t.Target(), vs.Cuts(fr, f)); p != nil {
+						return p
+					}
 				}
-				if p := findPath(Point{e.To(), 0}, t.Target(), keyCuts); p != nil {
-					wit = p
-					break
-				}
+				return nil
 			}
+			wit := search(anyKey)
 			c.Check(wit == nil, rule, fnName(g)+"#resumed-branch=>SetSymmetricKey", "the resumed branch returns success only after a nil-error SetSymmetricKey",
 				"the resumed branch can return success without a nil-error SetSymmetricKey", c06BlockPos(b), c.describePath(wit)...)
-			okArg := false
-			for _, cs := range keyCalls {
-				if instrDominatedByEdge(g, e, cs) {
-					args := callArgs(cs)
-					okArg = len(args) == 2 && c06AllOrigins(g, args[1], func(o ssa.Value) bool { return c06CallOf(o, a.getSecret.Object()) != nil })
-				}
-			}
-			c.Check(okArg, rule, fnName(g)+"#resumed-branch-key<-GetSharedSecret", "the key installed on the resumed branch is the negotiation's shared secret",
-				"the key installed on the resumed branch is not GetSharedSecret()", c06BlockPos(b))
+			w2 := search(secretKey)
+			c.Check(w2 == nil, rule, fnName(g)+"#resumed-branch-key<-GetSharedSecret", "the key installed on the resumed branch is the negotiation's shared secret",
+				"the key installed on the resumed branch is not GetSharedSecret()", c06BlockPos(b), c.describePath(w2)...)
 		}
 	}
 	c.MinCount(rule, "SessionResumed branches in setupStreamEncryption", nb, 1)
@@ -475,7 +592,7 @@ func c06r1(c *Ctx) {
 // C06-R2: only expiry-checked lookups feed the resumption.
 func c06r2(c *Ctx) {
 	const rule = "C06-R2"
-	c.Doc(rule, "the *SessionEntry used by handleSessionResumption comes only from LookupNonExpired/Lookup and success passes their found=true edge; Lookup, LookupNonExpired and LookupByCommand return true only past a sessions-map hit and a false IsExpired(); Invalidate deletes the map entry before returning true; only the cache's own methods read the sessions map")
+	c.Doc(rule, "the *SessionEntry used by handleSessionResumption (and by the helpers it hands it to) comes only from LookupNonExpired/Lookup and success passes their found=true outcome; Lookup, LookupNonExpired and LookupByCommand return true only past a sessions-map hit and a false IsExpired(); Invalidate deletes the map entry before returning true; only the cache's own methods (and helpers only they call) read the sessions map")
 	a := c06Resolve(c, rule)
 	isExp := c.needFn(rule, "security", "(*SessionEntry).IsExpired")
 	fSess := c.needField(rule, "security", "SessionCache", "sessions")
@@ -483,55 +600,63 @@ func c06r2(c *Ctx) {
 		return
 	}
 	H := a.H
+	vw := c.c06View(a, H)
 	n := 0
-	allInstrs(H, func(_ *ssa.BasicBlock, _ int, in ssa.Instruction) {
-		cl, ok := in.(ssa.CallInstruction)
-		if !ok {
-			return
-		}
-		for i, arg := range callArgs(cl) {
-			if !types.Identical(arg.Type(), a.entryT) {
-				continue
+	vw.EachInstr(func(fr *c06Frame, in ssa.Instruction) {
+		switch x := in.(type) {
+		case ssa.CallInstruction:
+			for i, arg := range callArgs(x) {
+				if !types.Identical(arg.Type(), a.entryT) {
+					continue
+				}
+				n++
+				name := "<dynamic>"
+				if o := calleeObj(x); o != nil {
+					name = o.Name()
+				} else if g := calleeFn(x); g != nil {
+					name = g.Name()
+				}
+				if !a.entryFromLookup(vw, c06FV{arg, fr}) {
+					c.Violate(rule, fmt.Sprintf("%s#entry-use:%s/arg%d", fnName(H), name, i), "a *SessionEntry used during resumption does not come from LookupNonExpired/Lookup (expiry unchecked)", x.Pos())
+				}
 			}
-			n++
-			name := "<dynamic>"
-			if o := calleeObj(cl); o != nil {
-				name = o.Name()
-			}
-			if !a.entryFromLookup(H, arg) {
-				c.Violate(rule, fmt.Sprintf("%s#entry-use:%s/arg%d", fnName(H), name, i), "a *SessionEntry used during resumption does not come from LookupNonExpired/Lookup (expiry unchecked)", cl.Pos())
+		case *ssa.FieldAddr:
+			if types.Identical(x.X.Type(), a.entryT) {
+				n++
+				if !a.entryFromLookup(vw, c06FV{x.X, fr}) {
+					c.Violate(rule, fmt.Sprintf("%s#entry-use:field-%s", fnName(H), fieldOfAddr(x).Name()), "a *SessionEntry used during resumption does not come from LookupNonExpired/Lookup (expiry unchecked)", x.Pos())
+				}
 			}
 		}
 	})
 	c.Ok(rule, fnName(H)+"#entry-uses", fmt.Sprintf("%d uses of a *SessionEntry inspected", n), H.Pos())
-	c.MinCount(rule, "uses of the looked-up entry in handleSessionResumption", n, 8)
+	c.MinCount(rule, "uses of the looked-up entry in handleSessionResumption", n, 1)
 	// success passes a found=true edge
-	pr := c06NewPruner(H)
-	cuts := newCuts()
-	nl := 0
-	for _, cs := range callsIn(H, a.lookupNE.Object(), a.lookup.Object()) {
-		nl++
-		if okv := extractN(cs.Value(), 1); okv != nil {
-			t, _ := boolEdges(H, okv)
-			cuts.AddEdges(t...)
-		}
-	}
-	c.c06MustPassReturns(rule, pr, H, c.c06SuccessTargets(H), cuts, ":found", "the found=true edge of an expiry-checked lookup")
-	c.MinCount(rule, "lookup calls in handleSessionResumption", nl, 2)
+	nl := len(vw.Calls(a.lookupNE.Object(), a.lookup.Object()))
+	vw.MustPassReturns(rule, c.c06SuccessTargets(H), a.foundFact(vw), 0, ":found", "the found=true edge of an expiry-checked lookup")
+	c.MinCount(rule, "lookup calls in handleSessionResumption", nl, 1)
 	// accessors
 	for _, f := range []*ssa.Function{a.lookup, a.lookupNE, a.lookupByCmd} {
-		c.c06AccessorChecks(rule, f, isExp, fSess)
+		c.c06AccessorChecks(rule, a, f, isExp, fSess)
 	}
 	// Invalidate deletes
 	inv := a.invalidate
-	var dels []ssa.Instruction
-	allInstrs(inv, func(_ *ssa.BasicBlock, _ int, in ssa.Instruction) {
-		if cl, ok := in.(*ssa.Call); ok {
-			if bi, ok := cl.Call.Value.(*ssa.Builtin); ok && bi.Name() == "delete" && readsField(cl.Call.Args[0], fSess) {
-				if len(inv.Params) >= 2 && cl.Call.Args[1] == inv.Params[1] {
-					dels = append(dels, cl)
-				}
-			}
+	vi := c.c06View(a, inv)
+	nd := 0
+	del := &c06Fact{Name: "delete(sessions, id)", Instr: func(fr *c06Frame, in ssa.Instruction) bool {
+		cl, ok := in.(*ssa.Call)
+		if !ok {
+			return false
+		}
+		bi, ok := cl.Call.Value.(*ssa.Builtin)
+		if !ok || bi.Name() != "delete" || !readsField(cl.Call.Args[0], fSess) {
+			return false
+		}
+		return vi.IsRootParam(c06FV{cl.Call.Args[1], fr}, 1)
+	}}
+	vi.EachInstr(func(fr *c06Frame, in ssa.Instruction) {
+		if del.Instr(fr, in) {
+			nd++
 		}
 	})
 	var trues []RetPoint
@@ -541,8 +666,8 @@ func c06r2(c *Ctx) {
 		}
 		trues = append(trues, r)
 	}
-	c.mustPassReturns(rule, inv, trues, newCuts().AddInstrs(dels...), "delete(sessions, id)")
-	c.MinCount(rule, "delete(sessions,id) in Invalidate", len(dels), 1)
+	vi.MustPassReturns(rule, trues, del, 0, "", "delete(sessions, id)")
+	c.MinCount(rule, "delete(sessions,id) in Invalidate", nd, 1)
 	// who may read the sessions map
 	allow := fnSet(a.lookup, a.lookupNE, a.lookupByCmd, inv)
 	for _, nm := range []string{"(*SessionCache).InvalidateExpired", "(*SessionCache).Snapshot", "(*SessionCache).DebugDump", "(*SessionCache).Size", "(*SessionCache).Store", "(*SessionCache).Clear", "NewSessionCache"} {
@@ -556,13 +681,52 @@ func c06r2(c *Ctx) {
 		rd = append(rd, acc.Fn)
 		poss[acc.Fn] = acc.Instr.Pos()
 	}
-	c.whoMay(rule, "access SessionCache.sessions", rd, poss, allow)
-	c.MinCount(rule, "functions touching SessionCache.sessions", len(rd), 8)
+	users := c.c06WhoMay(rule, "access SessionCache.sessions", rd, poss, allow)
+	c.MinCount(rule, "functions touching SessionCache.sessions", users, 2)
 }
 
 // c06AccessorChecks: accessor f returns found=true only past a hit in the sessions map and a false
-// IsExpired(), and the entry it returns is that map value.
-func (c *Ctx) c06AccessorChecks(rule string, f, isExp *ssa.Function, fSess *types.Var) {
+// IsExpired(), and the entry it returns is that map value (the lookup proper may live in a helper of f).
+func (c *Ctx) c06AccessorChecks(rule string, a *c06A, f, isExp *ssa.Function, fSess *types.Var) {
+	vw := c.c06View(a, f)
+	// delegation: result #idx of another of the checked accessors carries what that accessor guarantees
+	var others []types.Object
+	for _, g := range []*ssa.Function{a.lookup, a.lookupNE, a.lookupByCmd} {
+		if g != f {
+			others = append(others, g.Object())
+		}
+	}
+	isDelegated := func(o c06FV, idx int) bool {
+		ex, ok := o.V.(*ssa.Extract)
+		return ok && ex.Index == idx && c06CallOf(o.V, others...) != nil
+	}
+	isMapOk := func(o c06FV, idx int) bool {
+		if isDelegated(o, idx) {
+			return true
+		}
+		ex, ok := o.V.(*ssa.Extract)
+		if !ok || ex.Index != idx {
+			return false
+		}
+		lk, ok := ex.Tuple.(*ssa.Lookup)
+		return ok && lk.CommaOk && readsField(lk.X, fSess)
+	}
+	notExpired := &c06Fact{Name: "!IsExpired()", Cond: func(fr *c06Frame, at Atom) (bool, bool) {
+		if at.Op != token.ILLEGAL || at.X == nil {
+			return false, false
+		}
+		if vw.AllOrigins(c06FV{at.X, fr}, func(o c06FV) bool { return isDelegated(o, 1) }) {
+			return true, false
+		}
+		cl, ok := at.X.(*ssa.Call)
+		return false, ok && calleeFn(cl) == isExp
+	}}
+	hit := &c06Fact{Name: "sessions-map hit", Cond: func(fr *c06Frame, at Atom) (bool, bool) {
+		if at.Op != token.ILLEGAL || at.X == nil {
+			return false, false
+		}
+		return vw.AllOrigins(c06FV{at.X, fr}, func(o c06FV) bool { return isMapOk(o, 1) }), false
+	}}
 	var targets []RetPoint
 	for _, r := range c.c06LiveReturns(f) {
 		if len(r.Ret.Results) == 2 {
@@ -572,62 +736,58 @@ func (c *Ctx) c06AccessorChecks(rule string, f, isExp *ssa.Function, fSess *type
 			targets = append(targets, r)
 		}
 	}
-	expCuts, hitCuts := newCuts(), newCuts()
-	for _, cs := range callsIn(f, isExp.Object()) {
-		_, fe := boolEdges(f, cs.Value())
-		expCuts.AddEdges(fe...)
-	}
-	var mapReads []*ssa.Lookup
-	allInstrs(f, func(_ *ssa.BasicBlock, _ int, in ssa.Instruction) {
-		if lk, ok := in.(*ssa.Lookup); ok && lk.CommaOk && readsField(lk.X, fSess) {
-			mapReads = append(mapReads, lk)
-			if okv := extractN(lk, 1); okv != nil {
-				t, _ := boolEdges(f, okv)
-				hitCuts.AddEdges(t...)
+	// "return helper(id)": the returned found flag itself may carry the fact
+	open := func(fact *c06Fact) []RetPoint {
+		var out []RetPoint
+		for _, t := range targets {
+			if yes, _ := vw.evalValue(vw.Root, fact, c06RetVal(t.Ret, 1), 0); yes {
+				continue
 			}
+			out = append(out, t)
 		}
-	})
-	c.mustPassReturns(rule, f, targets, expCuts, "a false IsExpired()")
+		return out
+	}
+	vw.MustPassReturns(rule, open(notExpired), notExpired, 0, "", "a false IsExpired()")
 	for _, t := range targets {
-		p := findPath(entryPoint(f), t.Target(), hitCuts)
+		var p []*ssa.BasicBlock
+		if yes, _ := vw.evalValue(vw.Root, hit, c06RetVal(t.Ret, 1), 0); !yes {
+			p = vw.PathToReturns(vw.Root, []RetPoint{t}, hit, 0)
+		}
 		c.Check(p == nil, rule, fmt.Sprintf("%s#return%d:map-hit", fnName(f), retOrdinal(f, t.Ret)), "found=true only past a hit in the sessions map", "found=true can be returned without a hit in the sessions map", t.Ret.Pos(), c.describePath(p)...)
-		fromMap := c06AllOrigins(f, c06RetVal(t.Ret, 0), func(o ssa.Value) bool {
-			ex, ok := o.(*ssa.Extract)
-			if !ok || ex.Index != 0 {
-				return false
-			}
-			lk, ok := ex.Tuple.(*ssa.Lookup)
-			return ok && readsField(lk.X, fSess)
-		})
+		fromMap := vw.AllOrigins(vw.fv(c06RetVal(t.Ret, 0)), func(o c06FV) bool { return isMapOk(o, 0) })
 		c.Check(fromMap, rule, fmt.Sprintf("%s#return%d:entry<-sessions", fnName(f), retOrdinal(f, t.Ret)), "the returned entry is the sessions-map value", "the returned entry is not the value read from the sessions map", t.Ret.Pos())
 	}
+	nr := len(vw.Calls(others...))
+	vw.EachInstr(func(fr *c06Frame, in ssa.Instruction) {
+		if lk, ok := in.(*ssa.Lookup); ok && lk.CommaOk && readsField(lk.X, fSess) {
+			nr++
+		}
+	})
 	c.MinCount(rule, "found=true returns of "+fnName(f), len(targets), 1)
-	c.MinCount(rule, "sessions-map reads in "+fnName(f), len(mapReads), 1)
-
+	c.MinCount(rule, "sessions-map reads (or calls of another checked accessor) in "+fnName(f), nr, 1)
 }
 
-// c06Reply describes a reply ad handleSessionResumption sends: for each FinishMessage call the
-// ReturnCode constant of the ad put on the same message.
+// c06Reply describes a reply ad the resumption handler sends: for each FinishMessage call (in the handler or
+// in a helper of it) the ReturnCode constant of the ad put on the same message.
 type c06Reply struct {
-	Finish, Put ssa.CallInstruction
-	Ad          ssa.Value
+	Finish, Put c06Site
+	Ad          c06FV
 	Code        string
 }
 
-func (a *c06A) replies(fn *ssa.Function) []c06Reply {
-	sets := c06AdSets(fn)
+func (a *c06A) replies(vw *c06View) []c06Reply {
+	sets := vw.Sets()
 	var out []c06Reply
-	for _, fin := range callsIn(fn, a.finish.Object()) {
-		m := callArgs(fin)[0]
-		for _, put := range callsIn(fn, a.putAd.Object()) {
-			pa := callArgs(put)
-			if len(pa) < 3 || !c06SameValue(fn, pa[0], m) {
+	for _, fin := range vw.Calls(a.finish.Object()) {
+		m := fin.Arg(0)
+		for _, put := range vw.Calls(a.putAd.Object()) {
+			if put.NArgs() < 3 || !vw.Same(put.Arg(0), m) {
 				continue
 			}
-			r := c06Reply{Finish: fin, Put: put, Ad: pa[2]}
+			r := c06Reply{Finish: fin, Put: put, Ad: put.Arg(2)}
 			for _, s := range sets {
-				if s.Name == "ReturnCode" && c06SameValue(fn, s.Ad, pa[2]) {
-					if cs, ok := constString(s.Val); ok {
+				if s.Name == "ReturnCode" && vw.Same(s.Ad, r.Ad) {
+					if cs, ok := vw.ConstString(s.Val); ok {
 						r.Code = cs
 					}
 				}
@@ -638,96 +798,128 @@ func (a *c06A) replies(fn *ssa.Function) []c06Reply {
 	return out
 }
 
-// clientCodes: the ReturnCode constants resumeSession tests: those whose equality leads to
-// cache.Invalidate ("session gone") and all compared constants.
-func (a *c06A) clientCodes(R *ssa.Function) (gone map[string]bool, cmps []c06StrCmp) {
-	gone = map[string]bool{}
-	allInstrs(R, func(_ *ssa.BasicBlock, _ int, in ssa.Instruction) {
-		ex, ok := in.(*ssa.Extract)
-		if !ok || ex.Index != 0 {
+// c06CodeCmp is a comparison of the reply's ReturnCode attribute with a string constant, somewhere in the view.
+type c06CodeCmp struct {
+	Const string
+	F     *c06Frame
+}
+
+// isReturnCode: v is the value of the ReturnCode attribute of an ad.
+func (a *c06A) isReturnCode(vw *c06View, v c06FV) bool {
+	return vw.AllOrigins(v, func(o c06FV) bool {
+		_, _, name, idx, ok := vw.AttrLookup(o)
+		return ok && name == "ReturnCode" && idx == 0
+	})
+}
+
+// codeAtom: at compares the ReturnCode attribute with a string constant.
+func (a *c06A) codeAtom(vw *c06View, fr *c06Frame, at Atom) (k string, eqOnTrue, ok bool) {
+	if at.Op != token.EQL && at.Op != token.NEQ || at.X == nil || at.Y == nil {
+		return "", false, false
+	}
+	x, y := c06FV{at.X, fr}, c06FV{at.Y, fr}
+	if s, isC := vw.ConstString(y); isC && a.isReturnCode(vw, x) {
+		return s, at.Op == token.EQL, true
+	}
+	if s, isC := vw.ConstString(x); isC && a.isReturnCode(vw, y) {
+		return s, at.Op == token.EQL, true
+	}
+	return "", false, false
+}
+
+// codeFact: "ReturnCode == k" (eq) resp. "ReturnCode != k" for some k in ks.
+func (a *c06A) codeFact(vw *c06View, ks map[string]bool, eq bool) *c06Fact {
+	return &c06Fact{Name: "ReturnCode", Cond: func(fr *c06Frame, at Atom) (bool, bool) {
+		k, eqOnTrue, ok := a.codeAtom(vw, fr, at)
+		if !ok || !ks[k] {
+			return false, false
+		}
+		if eq {
+			return eqOnTrue, !eqOnTrue
+		}
+		return !eqOnTrue, eqOnTrue
+	}}
+}
+
+// clientCodes: the ReturnCode constants resumeSession (or a helper of it) compares the reply's code with, and
+// those whose equality leads to cache.Invalidate ("session gone").
+func (a *c06A) clientCodes(vw *c06View) (gone map[string]bool, all map[string]bool) {
+	gone, all = map[string]bool{}, map[string]bool{}
+	vw.EachInstr(func(fr *c06Frame, in ssa.Instruction) {
+		bo, ok := in.(*ssa.BinOp)
+		if !ok {
 			return
 		}
-		if _, _, name, _, ok := c06AttrLookup(ex); !ok || name != "ReturnCode" {
-			return
-		}
-		for _, cm := range c06StringCompares(R, ex) {
-			cmps = append(cmps, cm)
-			for _, inv := range callsIn(R, a.invalidate.Object()) {
-				if instrDominatedByEdge(R, cm.EqEdge, inv) {
-					gone[cm.Const] = true
-				}
-			}
+		if k, _, ok := a.codeAtom(vw, fr, Atom{Op: bo.Op, X: bo.X, Y: bo.Y}); ok {
+			all[k] = true
 		}
 	})
+	for k := range all {
+		f := a.codeFact(vw, map[string]bool{k: true}, true)
+		for _, inv := range vw.Calls(a.invalidate.Object()) {
+			if ok, _ := vw.MustPassTo(inv.F, inv.Call, f); ok {
+				gone[k] = true
+			}
+		}
+	}
 	return
 }
 
-// c06NotAskedEdges: edges on which the requester did not ask for a reply (ResumeResponse false/absent).
-func c06NotAskedEdges(fn *ssa.Function) []Edge {
-	var out []Edge
-	for _, b := range fn.Blocks {
-		ifi := blockIf(b)
-		if ifi == nil {
-			continue
-		}
-		at := condAtom(ifi.Cond)
-		if at.Op != token.ILLEGAL {
-			continue
+// notAskedFact: the requester did not ask for a reply (ResumeResponse false or absent).
+func (a *c06A) notAskedFact(vw *c06View, seen map[c06FV]bool) *c06Fact {
+	return &c06Fact{Name: "ResumeResponse false/absent", Cond: func(fr *c06Frame, at Atom) (bool, bool) {
+		if at.Op != token.ILLEGAL || at.X == nil {
+			return false, false
 		}
 		sawAttr := false
-		ok := c06AllOrigins(fn, at.X, func(o ssa.Value) bool {
-			if v, isC := constBool(o); isC {
+		ok := vw.AllOrigins(c06FV{at.X, fr}, func(o c06FV) bool {
+			if v, isC := constBool(o.V); isC {
 				return !v
 			}
-			if _, _, name, idx, isL := c06AttrLookup(o); isL && name == "ResumeResponse" && idx == 0 {
+			// the attribute's value, or its "present" flag: absent counts as not asked
+			if _, _, name, _, isL := vw.AttrLookup(o); isL && name == "ResumeResponse" {
 				sawAttr = true
 				return true
 			}
 			return false
 		})
 		if !ok || !sawAttr {
-			continue
+			return false, false
 		}
-		if at.Neg {
-			out = append(out, Edge{b, 0})
-		} else {
-			out = append(out, Edge{b, 1})
+		if seen != nil {
+			seen[c06FV{at.X, fr}] = true
 		}
-	}
-	return out
+		return false, true
+	}}
 }
 
 // C06-R3: a requester that asked is told the session is gone.
 func c06r3(c *Ctx) {
 	const rule = "C06-R3"
-	c.Doc(rule, "handleSessionResumption: every error return that can be reached without a found=true lookup edge is preceded by a completed reply (nil-error FinishMessage) whose ReturnCode is the constant resumeSession treats as 'session gone' (it invalidates on it), unless the requester did not ask (ResumeResponse false/absent) or sending the reply itself failed")
+	c.Doc(rule, "handleSessionResumption: every error return that can be reached without a found=true lookup edge is preceded by a completed reply (nil-error FinishMessage, possibly sent by a helper) whose ReturnCode is the constant resumeSession treats as 'session gone' (it invalidates on it), unless the requester did not ask (ResumeResponse false/absent) or sending the reply itself failed")
 	a := c06Resolve(c, rule)
 	if a == nil {
 		return
 	}
 	H := a.H
-	gone, _ := a.clientCodes(a.R)
+	vw := c.c06View(a, H)
+	gone, _ := a.clientCodes(c.c06View(a, a.R))
 	c.MinCount(rule, "ReturnCode constants on which resumeSession invalidates", len(gone), 1)
-	cuts := newCuts()
+	fin, put := map[c06Site]bool{}, map[c06Site]bool{}
 	told := 0
-	for _, r := range a.replies(H) {
+	for _, r := range a.replies(vw) {
 		if !gone[r.Code] {
 			continue
 		}
 		told++
-		s, f, _ := callErrEdges(H, r.Finish.Value())
-		cuts.AddEdges(s...).AddEdges(f...)
-		_, f2, _ := callErrEdges(H, r.Put.Value())
-		cuts.AddEdges(f2...)
+		fin[r.Finish], put[r.Put] = true, true
 	}
-	na := c06NotAskedEdges(H)
-	cuts.AddEdges(na...)
-	for _, cs := range callsIn(H, a.lookupNE.Object(), a.lookup.Object()) {
-		if okv := extractN(cs.Value(), 1); okv != nil {
-			t, _ := boolEdges(H, okv)
-			cuts.AddEdges(t...)
-		}
+	toldFact := &c06Fact{Name: "told",
+		CallOK:   func(fr *c06Frame, cl ssa.CallInstruction) bool { return fin[c06Site{cl, fr}] },
+		CallFail: func(fr *c06Frame, cl ssa.CallInstruction) bool { return fin[c06Site{cl, fr}] || put[c06Site{cl, fr}] },
 	}
+	tests := map[c06FV]bool{}
+	fact := c06AnyOf("told / not asked / found", toldFact, a.notAskedFact(vw, tests), a.foundFact(vw))
 	var errs []RetPoint
 	isSucc := map[*ssa.Return]bool{}
 	for _, t := range c.c06SuccessTargets(H) {
@@ -738,68 +930,89 @@ func c06r3(c *Ctx) {
 			errs = append(errs, r)
 		}
 	}
-	pr := c06NewPruner(H)
-	c.c06MustPassReturns(rule, pr, H, errs, cuts, ":told", "a completed 'session gone' reply, a not-asked edge, a reply I/O failure or a found=true edge")
+	vw.MustPassReturns(rule, errs, fact, 2, ":told", "a completed 'session gone' reply, a not-asked edge, a reply I/O failure or a found=true edge")
 	c.MinCount(rule, "'session gone' replies in handleSessionResumption", told, 1)
-	c.MinCount(rule, "ResumeResponse tests", len(na), 1)
-	c.MinCount(rule, "error returns of handleSessionResumption", len(errs), 4)
+	c.MinCount(rule, "ResumeResponse tests", len(tests), 1)
+	c.MinCount(rule, "error returns of handleSessionResumption", len(errs), 1)
 }
 
 // C06-R4: identity restored from the entry's policy, never invented.
 func c06r4(c *Ctx) {
 	const rule = "C06-R4"
-	c.Doc(rule, "on resumption User/Authentication/NegotiatedAuth/ValidCommands of the negotiation are assigned only from entry.Policy() lookups of User/Authenticated/AuthMethods/ValidCommands or the zero value (entry = the looked-up entry on the server, the cached entry on the client); every writer of session policies (storeSession, ImportClaimSession, ImportFileTransferSession, MintClaimSession, CreateNonNegotiatedSession) sets Authenticated, User and AuthMethods")
+	c.Doc(rule, "on resumption User/Authentication/NegotiatedAuth/ValidCommands of the negotiation are assigned (in the handler or a helper of it) only from entry.Policy() lookups of User/Authenticated/AuthMethods/ValidCommands or the zero value (entry = the looked-up entry on the server, the cached entry on the client); every writer of session policies (storeSession, ImportClaimSession, ImportFileTransferSession, MintClaimSession, CreateNonNegotiatedSession) sets Authenticated, User and AuthMethods on the policy it registers")
 	a := c06Resolve(c, rule)
 	if a == nil {
 		return
 	}
 	want := map[*types.Var]string{a.fUser: "User", a.fAuthn: "Authenticated", a.fAuthM: "AuthMethods", a.fValidC: "ValidCommands"}
-	count := map[*ssa.Function]int{}
+	type fnField struct {
+		fn *ssa.Function
+		f  *types.Var
+	}
+	count := map[fnField]int{}
 	for _, fn := range []*ssa.Function{a.H, a.R} {
+		vw := c.c06View(a, fn)
+		isEntry := func(v c06FV) bool {
+			if fn == a.H {
+				return a.entryFromLookup(vw, v)
+			}
+			return vw.IsRootParam(v, 2)
+		}
 		for f, attr := range want {
-			for _, st := range c06StoresToField(fn, f) {
-				count[fn]++
-				good := c06AllOrigins(fn, st.Val, func(o ssa.Value) bool {
+			for _, st := range vw.StoresToField(f) {
+				count[fnField{fn, f}]++
+				good := vw.AllOrigins(st.Val(), func(o c06FV) bool {
 					// the zero value ("", false) is a default, not an invented identity
-					if b, isB := constBool(o); isB && !b {
+					if b, isB := constBool(o.V); isB && !b {
 						return true
 					}
-					if str, isS := constString(o); isS && str == "" {
+					if str, isS := constString(o.V); isS && str == "" {
 						return true
 					}
-					_, ad, name, idx, ok := c06AttrLookup(o)
+					_, ad, name, idx, ok := vw.AttrLookup(o)
 					if !ok || idx != 0 || name != attr {
 						return false
 					}
-					return c06AllOrigins(fn, ad, func(p ssa.Value) bool {
-						pc := c06CallOf(p, a.policy.Object())
-						if pc == nil {
-							return false
-						}
-						recv := callArgs(pc)[0]
-						if fn == a.H {
-							return a.entryFromLookup(fn, recv)
-						}
-						return c06AllOrigins(fn, recv, func(q ssa.Value) bool { return len(fn.Params) > 2 && q == fn.Params[2] })
-					})
+					return a.isPolicyVal(vw, ad, isEntry)
 				})
 				c.Check(good, rule, fnName(fn)+"#store:"+f.Name(), f.Name()+" is restored from the entry's policy attribute "+attr,
-					f.Name()+" of a resumed session is assigned from something other than entry.Policy()."+attr+" (identity invented or taken from the peer)", st.Pos())
+					f.Name()+" of a resumed session is assigned from something other than entry.Policy()."+attr+" (identity invented or taken from the peer)", st.St.Pos())
 			}
 		}
 	}
-	c.MinCount(rule, "identity stores in handleSessionResumption", count[a.H], 4)
-	c.MinCount(rule, "identity stores in resumeSession", count[a.R], 2)
+	// the property names the identity and the authentication status: both ends must restore these two
+	for _, fn := range []*ssa.Function{a.H, a.R} {
+		for _, f := range []*types.Var{a.fUser, a.fAuthn} {
+			c.MinCount(rule, "stores of "+f.Name()+" in "+fnName(fn), count[fnField{fn, f}], 1)
+		}
+	}
 	nw := 0
+	nse := c.needFn(rule, "security", "NewSessionEntry")
 	for _, nm := range []string{"(*Authenticator).storeSession", "ImportClaimSession", "ImportFileTransferSession", "MintClaimSession", "CreateNonNegotiatedSession"} {
 		w := c.needFn(rule, "security", nm)
-		if w == nil {
+		if w == nil || nse == nil {
 			continue
 		}
 		nw++
+		vw := c.c06NewView(w, append(a.stopFns(), nse)...)
+		// the policies this writer registers
+		var policies []c06FV
+		for _, e := range vw.Calls(nse.Object()) {
+			if e.NArgs() == 7 {
+				policies = append(policies, e.Arg(3))
+			}
+		}
+		if len(policies) == 0 {
+			c.Undecided(rule, fnName(w)+"#NewSessionEntry", "the writer does not build its session entry with NewSessionEntry: which policy it registers is not decided", w.Pos())
+			continue
+		}
 		names := map[string]bool{}
-		for _, s := range c06AdSets(w) {
-			names[s.Name] = true
+		for _, s := range vw.Sets() {
+			for _, p := range policies {
+				if s.Name != "" && vw.Same(s.Ad, p) {
+					names[s.Name] = true
+				}
+			}
 		}
 		for _, need := range []string{"Authenticated", "User", "AuthMethods"} {
 			c.Check(names[need], rule, fnName(w)+"#sets:"+need, "the stored policy carries "+need, "the stored policy never sets "+need+", which resumption reads back", w.Pos())
@@ -811,20 +1024,35 @@ func c06r4(c *Ctx) {
 // C06-R5: nothing switches protection off again.
 func c06r5(c *Ctx) {
 	const rule = "C06-R5"
-	c.Doc(rule, "handleSessionResumption, resumeSession and setupStreamEncryption (and their closures) never call Stream.SetEncrypted / SetCryptoMode / PrepareCryptoForSecret: once the key is installed nothing on the resumption path turns protection off")
+	c.Doc(rule, "handleSessionResumption, resumeSession and setupStreamEncryption (their closures and the same-package helpers they call) never call Stream.SetEncrypted / SetCryptoMode / PrepareCryptoForSecret: once the key is installed nothing on the resumption path turns protection off")
 	a := c06Resolve(c, rule)
 	if a == nil {
 		return
 	}
 	var off []types.Object
-	for _, nm := range []string{"(*Stream).SetEncrypted", "(*Stream).SetCryptoMode", "(*Stream).PrepareCryptoForSecret", "(*Stream).prepareCryptoForSecret"} {
+	for _, nm := range []string{"(*Stream).SetEncrypted", "(*Stream).SetCryptoMode", "(*Stream).PrepareCryptoForSecret"} {
 		if o := c.needObj(rule, "stream", nm); o != nil {
 			off = append(off, o)
 		}
 	}
+	// the unexported worker behind PrepareCryptoForSecret, when there is one
+	if o := c.LookupObj("stream", "(*Stream).prepareCryptoForSecret"); o != nil {
+		off = append(off, o)
+	}
 	n := 0
 	for _, top := range []*ssa.Function{a.H, a.R, a.S} {
-		for _, fn := range withClosures(top) {
+		n0 := n
+		seen := map[*ssa.Function]bool{}
+		var fns []*ssa.Function
+		for _, fr := range c.c06View(a, top).Frames() {
+			for _, fn := range withClosures(fr.Fn) {
+				if !seen[fn] {
+					seen[fn] = true
+					fns = append(fns, fn)
+				}
+			}
+		}
+		for _, fn := range fns {
 			allInstrs(fn, func(_ *ssa.BasicBlock, _ int, in ssa.Instruction) {
 				if _, ok := in.(ssa.CallInstruction); ok {
 					n++
@@ -834,10 +1062,10 @@ func c06r5(c *Ctx) {
 				}
 			})
 		}
+		c.MinCount(rule, "call sites inspected in "+fnName(top), n-n0, 1)
 	}
 	c.Ok(rule, "resumption-path#no-crypto-off", fmt.Sprintf("%d call sites inspected, none switches stream protection off", n), token.NoPos)
-	c.MinCount(rule, "call sites inspected", n, 60)
-	c.MinCount(rule, "crypto-off entry points resolved", len(off), 4)
+	c.MinCount(rule, "crypto-off entry points resolved", len(off), 3)
 }
 
 // C06-R6: freshness of the resumption exchange.
@@ -848,15 +1076,16 @@ func c06r6(c *Ctx) {
 	if a == nil {
 		return
 	}
-	gone, _ := a.clientCodes(a.R)
-	fresh := func(fn *ssa.Function, ad ssa.Value) (bool, int) {
+	vr, vh := c.c06View(a, a.R), c.c06View(a, a.H)
+	gone, _ := a.clientCodes(vr)
+	fresh := func(vw *c06View, ad c06FV) (bool, int) {
 		n := 0
-		for _, s := range c06AdSets(fn) {
-			if !c06SameValue(fn, s.Ad, ad) {
+		for _, s := range vw.Sets() {
+			if !vw.Same(s.Ad, ad) {
 				continue
 			}
 			n++
-			if c.c06Fresh(fn, s.Val, 3, map[*ssa.Function]bool{}) {
+			if c.c06FreshX(vw, s.Val) {
 				return true, n
 			}
 		}
@@ -864,30 +1093,29 @@ func c06r6(c *Ctx) {
 	}
 	// request
 	nreq := 0
-	for _, put := range callsIn(a.R, a.putAd.Object()) {
+	for _, put := range vr.Calls(a.putAd.Object()) {
 		nreq++
-		ok, n := fresh(a.R, callArgs(put)[2])
+		ok, n := fresh(vr, put.Arg(2))
 		c.Check(ok, rule, fnName(a.R)+"#request-ad", "the resumption request carries a fresh value",
 			fmt.Sprintf("none of the %d attributes of the resumption request depends on crypto/rand: the client's cleartext transcript is identical on every resumption of a session, so a recorded server->client stream replays against a resuming client", n), put.Pos())
 	}
 	c.MinCount(rule, "request ads in resumeSession", nreq, 1)
 	// reply
 	nrep := 0
-	cuts := newCuts()
-	for _, r := range a.replies(a.H) {
+	fin := map[c06Site]bool{}
+	for _, r := range a.replies(vh) {
 		if gone[r.Code] || r.Code == "" {
 			continue
 		}
 		nrep++
-		ok, n := fresh(a.H, r.Ad)
+		ok, n := fresh(vh, r.Ad)
 		c.Check(ok, rule, fnName(a.H)+"#reply-ad", "the resumption reply carries a fresh value",
 			fmt.Sprintf("none of the %d attributes of the %s reply depends on crypto/rand: the server's cleartext transcript is identical on every resumption of a session, so the recorded client->server bytes of one connection (request + encrypted frames, sender-chosen IV) verify again on a new connection", n, r.Code), r.Put.Pos())
-		s, _, _ := callErrEdges(a.H, r.Finish.Value())
-		cuts.AddEdges(s...)
+		fin[r.Finish] = true
 	}
 	c.MinCount(rule, "success reply ads in handleSessionResumption", nrep, 1)
-	pr := c06NewPruner(a.H)
-	wit := c06PathToReturns(pr, a.H, c.c06SuccessTargets(a.H), cuts)
+	sent := &c06Fact{Name: "reply sent", CallOK: func(fr *c06Frame, cl ssa.CallInstruction) bool { return fin[c06Site{cl, fr}] }}
+	wit := vh.PathToReturns(vh.Root, c.c06SuccessTargets(a.H), sent, 1)
 	c.Check(wit == nil, rule, fnName(a.H)+"#reply-less-resumption", "every resumption sends the reply",
 		"a session is resumed without any reply being sent (ResumeResponse false/absent): the server contributes nothing to the transcript, so a recorded client->server stream of such a connection replays whatever the reply would contain", a.H.Pos(), c.describePath(wit)...)
 }
@@ -895,32 +1123,30 @@ func c06r6(c *Ctx) {
 // C06-R7: client side symmetry.
 func c06r7(c *Ctx) {
 	const rule = "C06-R7"
-	c.Doc(rule, "resumeSession: every success return passes the edge on which the reply's ReturnCode equals the constant the server puts in its success reply (an absent ReturnCode is not success); the installed secret is the cached entry's key and success passes a nil-error setupStreamEncryption")
+	c.Doc(rule, "resumeSession: every success return passes the edge on which the reply's ReturnCode equals the constant the server puts in its success reply (an absent ReturnCode is not success; the comparison may live in a helper); the installed secret is the cached entry's key and success passes a nil-error setupStreamEncryption")
 	a := c06Resolve(c, rule)
 	if a == nil {
 		return
 	}
-	gone, cmps := a.clientCodes(a.R)
+	vr, vh := c.c06View(a, a.R), c.c06View(a, a.H)
+	gone, all := a.clientCodes(vr)
 	okCodes := map[string]bool{}
-	for _, r := range a.replies(a.H) {
+	for _, r := range a.replies(vh) {
 		if r.Code != "" && !gone[r.Code] {
 			okCodes[r.Code] = true
 		}
 	}
 	c.MinCount(rule, "success ReturnCode constants sent by handleSessionResumption", len(okCodes), 1)
-	cuts := newCuts()
 	n := 0
-	for _, cm := range cmps {
-		if okCodes[cm.Const] {
+	for k := range all {
+		if okCodes[k] {
 			n++
-			cuts.AddEdges(cm.EqEdge)
 		}
 	}
 	c.MinCount(rule, "comparisons of ReturnCode with the success constant in resumeSession", n, 1)
-	pr := c06NewPruner(a.R)
 	succ := c.c06SuccessTargets(a.R)
-	c.c06MustPassReturns(rule, pr, a.R, succ, cuts, ":authorized", "the edge on which ReturnCode == the server's success constant")
+	vr.MustPassReturns(rule, succ, a.codeFact(vr, okCodes, true), 0, ":authorized", "the edge on which ReturnCode == the server's success constant")
 	c.MinCount(rule, "success returns of resumeSession", len(succ), 1)
-	ni := c.c06Install(rule, a, a.R)
+	ni := c.c06Install(rule, a, vr)
 	c.MinCount(rule, "key installer calls in resumeSession", ni, 1)
 }
